@@ -316,6 +316,44 @@ pub(crate) fn atomize_map_union_any_value_iterator() {
     kani::assert(got == ne, "C06:map_union_yields_every_value_atom_under_its_key");
 }
 
+/// WithBot::atomize / WithTop::atomize against the Atomize CONTRACT of the inner type (modular, like the MapUnion harness above): the inner
+/// value is the havoc `HVal`, whose atom iterator answers ANY `size_hint` the Iterator contract allows.  Expected: WithBot yields exactly the
+/// inner atoms, wrapped, in order (none for `None`); WithTop the same for `Some`, and the single atom `None` (top) for `None`.
+#[kani::proof] #[kani::unwind(8)]
+pub(crate) fn atomize_with_bot_any_inner_iterator() {
+    let some: bool = kani::any();
+    let v = HVal { n: kani::any(), ids: kani::any() };
+    kani::assume(v.n <= 2);
+    let wb: WithBot<HVal> = WithBot::new(if some { Some(v) } else { None });
+    let ne = if some { v.n } else { 0 };
+    let mut got = 0;
+    for atom in wb.atomize() {
+        match atom.into_reveal() {
+            Some(a) => kani::assert(got < ne && a.0 == v.ids[got], "C06:with_bot_atoms_are_exactly_the_inner_atoms"),
+            None => kani::assert(false, "C06:no_bottom_atom"),
+        }
+        got += 1;
+    }
+    kani::assert(got == ne, "C06:with_bot_yields_every_inner_atom_and_nothing_iff_bottom");
+}
+#[kani::proof] #[kani::unwind(8)]
+pub(crate) fn atomize_with_top_any_inner_iterator() {
+    let some: bool = kani::any();
+    let v = HVal { n: kani::any(), ids: kani::any() };
+    kani::assume(v.n <= 2);
+    let wt: WithTop<HVal> = WithTop::new(if some { Some(v) } else { None });
+    let ne = if some { v.n } else { 1 };
+    let mut got = 0;
+    for atom in wt.atomize() {
+        match atom.into_reveal() {
+            Some(a) => kani::assert(some && got < ne && a.0 == v.ids[got], "C06:with_top_atoms_are_exactly_the_inner_atoms"),
+            None => kani::assert(!some && got == 0, "C06:with_top_of_none_is_its_own_single_atom"),
+        }
+        got += 1;
+    }
+    kani::assert(got == ne, "C06:with_top_yields_every_inner_atom_and_nothing_iff_bottom");
+}
+
 /// UnionFind: atoms are the non-trivial links; merging them back gives the same partition.  > 30 min of CBMC: in NO tier
 #[kani::proof] #[kani::unwind(8)]
 pub(crate) fn deep_atomize_union_find() {
@@ -400,6 +438,52 @@ fn keyed_bimorphism_keys(ka: u8, kb: u8) {
         kani::assert(out.n == 0, "C07:keyed_bimorphism_keeps_exactly_the_common_keys");
     }
 }
+/// KeyedBimorphism::call MODULARLY, several entries per side: the value bimorphism is a cheap tagging function (a, b) -> a * 256 + b on
+/// Max (it distributes over max in each argument), keys are CONCRETE, values symbolic.  Expected (the key-wise model): the output holds exactly
+/// the keys common to both maps, each once, with the value bimorphism's output for that key's two values -- whatever the relative sizes
+/// of the two maps and wherever the unmatched keys sit in either iteration order.
+pub(crate) struct TagBim;
+impl lattices::LatticeBimorphism<Max<u8>, Max<u8>> for TagBim {
+    type Output = Max<u16>;
+    fn call(&mut self, a: Max<u8>, b: Max<u8>) -> Max<u16> { Max::new(((a.into_reveal() as u16) << 8) | b.into_reveal() as u16) }
+}
+fn keyed_bimorphism_shape<const NA: usize, const NB: usize>(ka: [u8; NA], kb: [u8; NB]) {
+    let mut ma = TinyMap::<Max<u8>>::default();
+    let mut mb = TinyMap::<Max<u8>>::default();
+    let va: [u8; NA] = kani::any();
+    let vb: [u8; NB] = kani::any();
+    let mut i = 0;
+    while i < NA { ma.insert(ka[i], Max::new(va[i])); i += 1; }
+    let mut j = 0;
+    while j < NB { mb.insert(kb[j], Max::new(vb[j])); j += 1; }
+    let mut f = KeyedBimorphism::<TinyMap<Max<u16>>, _>::new(TagBim);
+    let out = f.call(MapUnion::new(ma), MapUnion::new(mb)).into_reveal();
+    let mut common = 0;
+    let mut i = 0;
+    while i < NA {
+        let mut j = 0;
+        let mut hit = false;
+        while j < NB {
+            if ka[i] == kb[j] {
+                hit = true;
+                common += 1;
+                let want = ((va[i] as u16) << 8) | vb[j] as u16;
+                match out.pos(ka[i]) {
+                    Some(p) => kani::assert(out.v[p].into_reveal() == want, "C07:keyed_bimorphism_applies_value_bimorphism_per_key"),
+                    None => kani::assert(false, "C07:keyed_bimorphism_keeps_exactly_the_common_keys"),
+                }
+            }
+            j += 1;
+        }
+        if !hit { kani::assert(out.pos(ka[i]).is_none(), "C07:keyed_bimorphism_keeps_exactly_the_common_keys"); }
+        i += 1;
+    }
+    kani::assert(out.n == common, "C07:keyed_bimorphism_keeps_exactly_the_common_keys");
+}
+#[kani::proof] #[kani::unwind(8)] pub(crate) fn keyed_bimorphism_multi_a3_b2_first_of_b_unmatched() { keyed_bimorphism_shape([1, 2, 3], [0, 2]) }
+#[kani::proof] #[kani::unwind(8)] pub(crate) fn keyed_bimorphism_multi_a2_b3_first_of_a_unmatched() { keyed_bimorphism_shape([0, 2], [1, 2, 3]) }
+#[kani::proof] #[kani::unwind(8)] pub(crate) fn keyed_bimorphism_multi_a3_b3_middle_unmatched() { keyed_bimorphism_shape([1, 5, 3], [3, 4, 1]) }
+#[kani::proof] #[kani::unwind(8)] pub(crate) fn keyed_bimorphism_multi_a2_b2_last_unmatched() { keyed_bimorphism_shape([2, 9], [2, 8]) }
 #[kani::proof] #[kani::unwind(8)] pub(crate) fn keyed_bimorphism_same_key() { keyed_bimorphism_keys(7, 7) }
 #[kani::proof] #[kani::unwind(8)] pub(crate) fn keyed_bimorphism_different_keys() { keyed_bimorphism_keys(7, 9) }
 
